@@ -203,7 +203,12 @@ func TestDispatch(t *testing.T) {
 				if mi%2 == 0 {
 					startTime = time.Date(2020, 2, 29, 12, 30, 0, 0, time.UTC)
 				}
-				r.srv = jrpc2.NewServer(spy{r, mux}, &jrpc2.ServerOptions{DisableBuiltin: !builtin, Concurrency: 2, StartTime: startTime})
+				opts := &jrpc2.ServerOptions{DisableBuiltin: !builtin, Concurrency: 2, StartTime: startTime}
+				r.srv = jrpc2.NewServer(spy{r, mux}, opts)
+				// the options are read when the server is made: the caller may reuse the value for another server afterwards
+				// (every field changed here; this server is what it was told to be)
+				*opts = jrpc2.ServerOptions{DisableBuiltin: builtin, Concurrency: 1, StartTime: time.Date(1999, 1, 1, 0, 0, 0, 0, time.UTC), AllowPush: true,
+					NewContext: func() context.Context { c, cancel := context.WithCancel(context.Background()); cancel(); return c }}
 				r.srv.Start(ch)
 				nout := 0
 				feed := func(txt string) ([]seen, [][]byte, []string) {
